@@ -57,7 +57,8 @@ fn variant_text(rng: &mut Rng, toks: &[Tok], kinds: &[&str]) -> (String, usize) 
         else { out.push_str(&t.text); }
     }
     if has("trail") { out.push_str(*rng.pick(SPACES)); changed += 1; }
-    if has("comment-end") { out.push_str(" -- the end"); changed += 1; }
+    // a comment as the very last thing, with and without text, with and without a line end
+    if has("comment-end") { out.push_str(*rng.pick(&[" -- the end", " --", "--", " -- x\n--", " --\n", "\n-- last line is a comment"])); changed += 1; }
     (out, changed)
 }
 
